@@ -260,7 +260,8 @@ def explore(harness, cfg, known=(), workers=None, deadline_s=None, max_paths=Non
 class Tracer:
     """Collects the funtracks functions executed (by qualified name) under /repo/src."""
 
-    def __init__(self, root="/repo/src"):
+    def __init__(self, root=None):
+        root = root or (os.environ.get("VERIF_REPO", "/repo") + "/src")
         self.root = root
         self.funcs = set()
 
